@@ -11,6 +11,8 @@ Three kinds of scenario (one Coq `case` type, see coq/CorrC03.v):
          re-assigned, before the first save and on the loaded CAS), and documents that are loaded in another
          layout than cassis writes (entries of %FEATURE_STRUCTURES / elements of the XMI in another order, the
          sofas after the annotations that refer to them)
+         Fourth wave: documents that do not list the views without members (UIMA omits the cas:View element of such a
+         view) while referenced-only annotations belong to them; their text is replaced after loading
 The oracle does its own UTF-16 arithmetic (len(s[:i].encode('utf-16-le')) // 2), independent of cassis and of
 the Coq model.
 """
@@ -45,7 +47,11 @@ RULE = (
     "change their view on the loaded CASes before the second save; half of the random documents are loaded from a "
     "re-laid-out copy of what was written (entries of %FEATURE_STRUCTURES / children of xmi:XMI reversed, sofas last, "
     "shuffled, the id-keyed object form of %FEATURE_STRUCTURES, \\u-escaped surrogate pairs); every span of every short string is "
-    "also checked as an annotation first indexed in the other view and then moved. Non-trivial: the text holds an "
+    "also checked as an annotation first indexed in the other view and then moved. Half of the random documents are loaded "
+    "from a copy that does not list the views without members (no cas:View element, as UIMA writes such a view / no entry "
+    "in %VIEWS; the sofa stays) - such a view may still be the view of referenced-only annotations; every span of every "
+    "short string is also checked as a referenced-only annotation of such an unlisted view whose text is replaced after "
+    "loading. Non-trivial: the text holds an "
     "astral code point and (doc) an annotation begins strictly after it."
 )
 TRUSTED = [
@@ -67,7 +73,8 @@ ASSUMPTIONS = [
     "an annotation is a member of at most one view at a time (it changes its view by remove + add); the view it was "
     "added to, or assigned the sofa of, last is its own view",
     "re-laid-out documents keep every element / entry and every attribute; only their order (and, for JSON, the "
-    "container form and the string escaping) changes",
+    "container form and the string escaping) changes - except that the cas:View element / the %VIEWS entry of a view "
+    "without members may be left out (its cas:Sofa element / Sofa entry is kept)",
 ]
 
 ALPHABET = [0x61, 0xE9, 0xFFFD, 0x10000, 0x10FFFF]
@@ -225,19 +232,22 @@ def _aops(sc):
     return out
 
 
-def _span_doc(text, other, k, moved=False):
+def _span_doc(text, other, k, moved=False, unlisted=False):
     """All spans of `text` as annotations of view 0, alternately indexed / referenced-only; view 1 holds `other`.
     moved: every annotation is first created in view 1 (offsets clipped to its text) and reaches view 0 and its span by a
-    `move` (after a save for every other string); the documents are loaded in another layout."""
+    `move` (after a save for every other string); the documents are loaded in another layout.
+    unlisted: every annotation of view 0 is referenced-only (a chain hanging from one indexed annotation of view 1), so view
+    0 has no members and the documents that are loaded do not list it (no cas:View element / no entry in %VIEWS, which is
+    how UIMA writes a view without members); after loading, the text of view 0 is replaced by a longer one."""
     n = len(text)
     spans = [(b, e) for b in range(n + 1) for e in range(b, n + 1)]
     ops = [{"op": "text", "v": 0, "s": list(text)}, {"op": "text", "v": 1, "s": list(other)}]
     anns = []
     typed = k % 2 == 1            # every other string: annotation types rotate, a record is created first
     if typed:
-        ops.append({"op": "rec", "v": k // 2 % 2, "t": 1 + k // 2 % 3})
+        ops.append({"op": "rec", "v": 1 if unlisted else k // 2 % 2, "t": 1 + k // 2 % 3})
     for j, (b, e) in enumerate(spans):
-        idx = (j + k) % 2 == 0 or j == 0
+        idx = ((j + k) % 2 == 0 or j == 0) and not unlisted
         anns.append({"op": "ann", "l": j + 1, "v": 0, "b": b, "e": e, "idx": idx, "ref": None})
         if typed:
             anns[-1]["t"] = (j + k // 2) % len(ANN_TYPES)
@@ -256,6 +266,11 @@ def _span_doc(text, other, k, moved=False):
     sc = {"k": "doc", "nv": 2, "ops": ops + anns + extra, "post": [[], []]}
     if typed:
         sc["ts"] = 1
+    if unlisted:
+        sc["nev"] = 1
+        sc["post"] = [[[ALPHABET[(k + 1) % 5]] + list(text)[::-1] + [0x62]], []]
+        if k % 2 == 0:
+            sc["lay"] = k
     if moved:
         m = len(other)
         moves = []
@@ -415,6 +430,10 @@ def _widen(sc, r):
             sc["pmv"].append(move(label, post, state))
     if r.random() < 0.5:
         sc["lay"] = r.randint(1, 10 ** 6)
+    # fourth wave (drawn last: everything above is as before): the loaded documents do not list the views that have
+    # no members - a view may still be the view of annotations that are only referenced from elsewhere
+    if r.random() < 0.5:
+        sc["nev"] = 1
     return sc
 
 
@@ -453,6 +472,12 @@ def generate(rng, tier):
                 k += 1
                 other = [ALPHABET[(k + 3) % 5], ALPHABET[k % 5], 0x62][: 1 + k % 3]
                 yield _span_doc(t, other, k, moved=True)
+        k = 0
+        for n in reversed(range((3 if tier == "thorough" else 2) + 1)):
+            for t in itertools.product(ALPHABET, repeat=n):
+                k += 1
+                other = [ALPHABET[(k + 3) % 5], ALPHABET[k % 5], 0x62][: 1 + k % 3]
+                yield _span_doc(t, other, k, unlisted=True)
     # the random stream of the third-wave content: derived from the seed without drawing from `rng`
     st = rng.getstate()[1]
     base = (st[1] ^ (st[2] << 1) ^ (st[3] << 2) ^ st[623]) ^ 0x5C03      # st[0] is the same for every seed
@@ -546,13 +571,16 @@ def _xmi_bytes(cas):
     return x.encode("utf-8") if isinstance(x, str) else x
 
 
-def _relayout_json(js, n):
+def _relayout_json(js, n, nev=False):
     """The same JSON CAS with the entries of %FEATURE_STRUCTURES in another order / container: reversed, sofas after
     everything else, shuffled, or shuffled and as the object keyed by id (the older form, which the reader accepts);
-    for odd n // 4 non-ASCII characters are written as \\u escapes (astral ones as surrogate pairs)."""
+    for odd n // 4 non-ASCII characters are written as \\u escapes (astral ones as surrogate pairs).  n = 0: order
+    and container as written.  nev: views without members are not listed in %VIEWS (their sofa entry stays)."""
     doc = json.loads(js)
+    if nev and isinstance(doc.get("%VIEWS"), dict):
+        doc["%VIEWS"] = {name: v for name, v in doc["%VIEWS"].items() if v.get("%MEMBERS")}
     fss = doc.get("%FEATURE_STRUCTURES")
-    if isinstance(fss, list):
+    if n and isinstance(fss, list):
         mode, r = n % 4, random.Random(n)
         if mode == 0:
             fss = fss[::-1]
@@ -567,9 +595,11 @@ def _relayout_json(js, n):
     return json.dumps(doc, ensure_ascii=bool(n // 4 % 2))
 
 
-def _relayout_xmi(data, n):
+def _relayout_xmi(data, n, nev=False):
     """The same XMI with the children of xmi:XMI (cas:NULL, sofas, feature structures, views) in another order:
-    reversed, the sofas after everything else, or shuffled.  Standard library only."""
+    reversed, the sofas after everything else, or shuffled (n = 0: order as written).  nev: the document has no cas:View
+    element for a view without members - which is how UIMA itself writes such a view; the cas:Sofa element stays.
+    Standard library only."""
     ns = {}
     for _ev, (prefix, uri) in ET.iterparse(io.BytesIO(data), events=("start-ns",)):
         ns[prefix] = uri
@@ -580,8 +610,12 @@ def _relayout_xmi(data, n):
             pass
     root = ET.fromstring(data)
     kids = list(root)
-    mode, r = n % 3, random.Random(n)
-    if mode == 0:
+    if nev:
+        kids = [e for e in kids if not (e.tag.endswith("}View") and not (e.attrib.get("members") or "").strip())]
+    mode, r = n % 3 if n else -1, random.Random(n)
+    if mode < 0:
+        pass
+    elif mode == 0:
         kids = kids[::-1]
     elif mode == 1:
         sofa = [e for e in kids if e.tag.endswith("}Sofa")]
@@ -660,8 +694,9 @@ def _run_doc(cassis, sc):
     # the in-memory offsets must not have been touched by saving; the covered text is that of the annotation's own view
     mem = [[by_label[l].begin, by_label[l].end] for l in labels]
     mc = [_covered(by_label[l]) for l in labels]
-    if sc.get("lay"):                      # the documents that are loaded are laid out differently from what cassis writes
-        xmi, js = _relayout_xmi(xmi, sc["lay"]), _relayout_json(js, sc["lay"])
+    if sc.get("lay") or sc.get("nev"):     # the documents that are loaded are laid out differently from what cassis writes
+        xmi = _relayout_xmi(xmi, sc.get("lay") or 0, bool(sc.get("nev")))
+        js = _relayout_json(js, sc.get("lay") or 0, bool(sc.get("nev")))
     cx = load_cas_from_xmi(xmi.decode("utf-8"), typesystem=ts)
     cj = load_cas_from_json(js, typesystem=ts)
     ox, oj = {}, {}
@@ -761,6 +796,8 @@ def _oracle_doc(sc, obs):
     final = _final_texts(sc)
     post_final = _post_texts(sc)
     lay = f" (documents re-laid-out with {sc['lay']})" if sc.get("lay") else ""
+    if sc.get("nev"):
+        lay += " (views without members not listed in the loaded documents)"
     for k, a in enumerate(_anns(sc)):
         who = (f"annotation {a['l']} (type {_ann_types(sc)[a.get('t', 0)]}, {'indexed' if a['idx'] else 'referenced-only'}, "
                f"view {a['v']}, begin={a['b']}, end={a['e']}{', its view was changed ' + str(a['mv']) + 'x' if a.get('mv') else ''})")
@@ -903,7 +940,10 @@ def render(sc, obs):
     def l(key):
         return _gl([f"({_goz(b)},{_goz(e)},{_gotext(t)})" for b, e, t, _sid in obs[key]])
     g_post = _gl([_gl([_gotext(s) for s in v]) for v in sc["post"]])
-    return f"Doc {g_views} {g_anns} {w('xw')} {w('jw')} {l('xl')} {l('jl')} {g_pmv} {g_post} {w('xw2')} {w('jw2')}"
+    def c(key):
+        return _gl([_gotext(t) for t in obs[key]])
+    return (f"Doc {g_views} {g_anns} {w('xw')} {w('jw')} {l('xl')} {l('jl')} {g_pmv} {g_post} {w('xw2')} {w('jw2')} "
+            f"{c('xc2')} {c('jc2')}")
 
 
 # ------------------------------------------------------------------------------------------------ bookkeeping
@@ -980,6 +1020,10 @@ def shrink_candidates(sc):
     if sc.get("lay"):
         c = cp(sc)
         del c["lay"]
+        yield c
+    if sc.get("nev"):
+        c = cp(sc)
+        del c["nev"]
         yield c
     for i in range(len(sc.get("pmv") or [])):
         c = cp(sc)
@@ -1066,6 +1110,26 @@ def _moved_across(sc):
     return False
 
 
+def _unlisted_views(sc):
+    """the views that have no members when the first documents are written (and so are not listed if sc['nev'])"""
+    members = {a["v"] for a in _anns(sc) if a["idx"]} | {o["v"] for o in sc["ops"] if o["op"] in ("holder", "rec")}
+    return set(range(sc["nv"])) - members
+
+
+def _ref_only_in_unlisted(sc, replaced=False):
+    """the loaded documents do not list a view that is the view of a referenced-only annotation inside the premises
+    (replaced: ... and the text of that view is replaced on the loaded CASes while the annotation stays there)"""
+    if not sc.get("nev"):
+        return False
+    final, post, empty = _final_texts(sc), _post_texts(sc), _unlisted_views(sc)
+    for a, a2 in zip(_anns(sc), _anns2(sc)):
+        if a["v"] in empty and not a["idx"] and _inside(final[a["v"]], a["b"], a["e"]):
+            if not replaced or (sc["post"][a["v"]] and a2["v"] == a["v"] and a2.get("mv", 0) == a.get("mv", 0)
+                                and _inside(post[a["v"]], a2["b"], a2["e"])):
+                return True
+    return False
+
+
 def distribution(scenarios, observations):
     docs = [s for s in scenarios if s["k"] == "doc"]
     anns = [a for s in docs for a in _anns(s)]
@@ -1105,6 +1169,10 @@ def distribution(scenarios, observations):
         "docs_loaded_in_another_layout": sum(1 for s in docs if s.get("lay")),
         "docs_loaded_with_sofas_after_annotations_astral": sum(
             1 for s in docs if s.get("lay") and s["lay"] % 4 != 2 and nontrivial(s)),
+        "docs_loaded_without_listing_memberless_views": sum(1 for s in docs if s.get("nev") and _unlisted_views(s)),
+        "docs_referenced_only_annotation_of_unlisted_view": sum(1 for s in docs if _ref_only_in_unlisted(s)),
+        "docs_referenced_only_annotation_of_unlisted_view_text_replaced_after_load": sum(
+            1 for s in docs if _ref_only_in_unlisted(s, True)),
     }
 
 
